@@ -14,8 +14,9 @@ import vlib
 from props import calsim, calfile, c15
 
 THEOREMS = ['Libvna.Cal.' + t for t in ('push_through', 'e_to_t', 'applyT_inverts', 'calibrate_then_apply_T', 'applyT_satisfies', 'applyT_scale_invariant',
-                                       'e_to_u', 'applyU_inverts', 'calibrate_then_apply_U', 'solve_unique')]
-FILES = ['Props/C01.lean']
+                                       'e_to_u', 'applyU_inverts', 'calibrate_then_apply_U', 'solve_unique')] + \
+    ['Libvna.LK.' + t for t in ('accum_spec', 'leak_exact', 'leak_frame', 'leak_perm', 'leak_none')]
+FILES = ['Props/C01.lean', 'Props/C01Leak.lean', 'Model/Leakage.lean']
 
 SHAPES_T = [(1, 1), (2, 2), (3, 3), (1, 2), (2, 3), (1, 3), (4, 4), (2, 4), (3, 4)]
 SHAPES_U = [(1, 1), (2, 2), (3, 3), (2, 1), (3, 2), (3, 1), (4, 4), (4, 2), (4, 3)]
@@ -86,7 +87,7 @@ def run(chk):
     rng = random.Random(chk.seed * 41 + 1)
     broken = []
     if THEOREMS:
-        c15.proof_side(chk, ['Libvna.Props.C01'], THEOREMS, FILES, broken)
+        c15.proof_side(chk, ['Libvna.Props.C01', 'Libvna.Props.C01Leak'], THEOREMS, FILES, broken)
     chk.checker_cmd = 'cd lean && lake build Libvna.Props.C01 && #print axioms'
     chk.trusted += ['tools/props/calsim.py: physical E-term network used as ground truth', 'tools/props/calfile.py: documented M/S equations',
                     'IEEE rounding not modelled: tolerances 1e-8 (apply) and 1e-9 (saved terms at 12 digits)']
@@ -162,10 +163,119 @@ def run(chk):
         chk.samples = [scs[0].lines[:4] + ['...'], scs[-1].lines[2][:200]]
         if not chk.violations:
             smooth_offgrid(chk, exe, rng, 1 if chk.tier == 'quick' else 8)
+        if not chk.violations:
+            leakage_terms(chk, exe, rng, 2 if chk.tier == 'quick' else 25, tmpdir, broken)
     finally:
         shutil.rmtree(tmpdir, ignore_errors=True)
     if broken and not chk.violations:
         chk.violation('obligation', 'proof/correspondence obligations that no longer check:\n' + '\n'.join(broken[:30]), nofail=True)
+
+
+class LeakSc(calsim.Scenario):
+    """records, for every added standard, which measurement cells were given and what they held, and which cells the standard
+    connects; every cell without a signal path gets an offset of its own per standard, so that the average is an average"""
+    recording = True
+    cur_ports = None
+
+    def add_reflect(self, port, *a, **k):
+        self.cur_ports = [port - 1]
+        return super().add_reflect(port, *a, **k)
+
+    def add_double_reflect(self, p1, p2, *a, **k):
+        self.cur_ports = [p1 - 1, p2 - 1]
+        return super().add_double_reflect(p1, p2, *a, **k)
+
+    def add_through(self, p1, p2, *a, **k):
+        self.cur_ports = [p1 - 1, p2 - 1]
+        return super().add_through(p1, p2, *a, **k)
+
+    def meas(self, Sfull_by_f, rows_sel=None, cols_sel=None):
+        Mf = [self.box.measure(Sfull_by_f[f], f) for f in range(self.nf)]
+        if self.recording:
+            S = np.asarray(Sfull_by_f[0], complex)
+            conn = (np.abs(S) > 0)[:self.rows, :self.cols]
+            # the library only takes a cell as free of a signal path where the standard says so: between two VNA ports that are both
+            # outside the standard nothing is known (union-find over the S cells that are not known zeros, vnacal_new_add_common.c)
+            out_ = [q for q in range(self.p) if q not in self.cur_ports]
+            for r in out_:
+                for c in out_:
+                    if r < self.rows and c < self.cols:
+                        conn[r, c] = True
+            for f in range(self.nf):
+                for r in range(self.rows):
+                    for c in range(self.cols):
+                        if r != c and not conn[r, c]:
+                            Mf[f][r, c] += complex(self.rng.uniform(-1, 1), self.rng.uniform(-1, 1)) * 1e-2
+            rs = rows_sel if rows_sel is not None else list(range(self.rows))
+            cs = cols_sel if cols_sel is not None else list(range(self.cols))
+            self.record.append(({(r, c): Mf[0][r, c] for r in rs for c in cs}, conn))
+        if rows_sel is not None or cols_sel is not None:
+            rs = rows_sel if rows_sel is not None else list(range(self.rows))
+            cs = cols_sel if cols_sel is not None else list(range(self.cols))
+            Mf = [M[np.ix_(rs, cs)] for M in Mf]
+        return Mf
+
+
+def leakage_terms(chk, exe, rng, reps, tmpdir, broken):
+    """tie of Model/Leakage.lean: the leakage terms vnacal_save writes are the model's averages over the standards as they were
+    given (full and abbreviated measurement matrices mixed, several samples per cell that differ from each other)"""
+    lines_m, wants = [], []
+    for rep in range(reps):
+        for typ in ('TE10', 'UE10', 'UE14'):
+            n = rng.choice([2, 3])
+            sc = LeakSc(rng, typ, n, n, 1, form='m')
+            sc.record = []
+            sc.begin()
+            sc.solt(variety=rng)
+            for _ in range(rng.randint(0, 2)):
+                i, j = rng.sample(range(1, n + 1), 2)
+                sc.add_double_reflect(i, j, rng.choice([calsim.SHORT, calsim.OPEN]), rng.choice([calsim.OPEN, calsim.MATCH]),
+                                      abbreviated=rng.choice(['full', 'both']) if n > 2 else 'full')
+            sc.recording = False
+            path = os.path.join(tmpdir, 'lk-%d-%s.vnacal' % (rep, typ))
+            sc.solve().add_calibration(b'c')
+            sc.lines += ['cal set_dprecision 0 1000', 'cal set_fprecision 0 1000', 'cal save 0 ' + vlib.hexbytes(path.encode()), 'cal free 0', 'cal live']
+            out, rc, err = vlib.run_lines(exe, sc.lines, timeout=600)
+            chk.evaluations += 1
+            tag = '%s %dx%d, %d standards in mixed shapes' % (typ, n, n, len(sc.record))
+            if rc != 0 or len(out) != len(sc.lines):
+                chk.violation('sanitizer-leakage', '%s: crash / sanitizer report:\n%s' % (tag, err[-1200:]), sc.lines[:len(out) + 1])
+                return
+            if not all(o.startswith('ok') for o in out):
+                k = next(i for i, o in enumerate(out) if not o.startswith('ok'))
+                chk.violation('leakage-refused', '%s: `%s` -> %s' % (tag, sc.lines[k][:80], out[k][:80]), sc.lines[:k + 1])
+                return
+            cal = calfile.load(path, exe)[0]
+            el = calfile.A(cal['data'][0]['el'])
+            toks = []
+            for given, conn in sc.record:
+                for r in range(n):
+                    for c in range(n):
+                        if (r, c) not in given:
+                            toks.append('x')
+                        elif conn[r, c] or r == c:
+                            toks.append('c')
+                        else:
+                            toks.append(vlib.c2h(given[(r, c)]))
+            lines_m.append('lk %d %d %s' % (n * n, len(sc.record), ' '.join(toks)))
+            wants.append((tag, n, el, sc.lines))
+    mout, mrc, merr = vlib.run_lines(vlib.model_exe(), lines_m)
+    if mrc != 0 or len(mout) != len(lines_m):
+        broken.append('model driver failed on the leakage script: rc=%s %s' % (mrc, merr[-300:]))
+        return
+    for (tag, n, el, lines), mo in zip(wants, mout):
+        w = mo.split()
+        if not w or w[0] != 'ok':
+            broken.append('leakage model answered %r' % mo[:80])
+            continue
+        mv = np.array(vlib.hs2c(w[1:]), complex).reshape(n, n)
+        d = max(abs(el[r, c] - mv[r, c]) for r in range(n) for c in range(n) if r != c)
+        if not d <= 1e-12:
+            # the model is the documented averaging rule: a difference is a violation of C01 only if the data say so; report as
+            # broken correspondence with the script as replay
+            chk.violation('leakage-average', '%s: the saved leakage terms differ from the average of the samples without a signal path by %.3e' % (tag, d), lines)
+            return
+        chk.count('leakage_terms_agree')
 
 
 def smooth_offgrid(chk, exe, rng, reps):
